@@ -208,4 +208,24 @@ def handleBoolGate (args obs : List String) : Verdict :=
     | none => bad "descr"
   | _ => bad "arity"
 
+/-- `boolstr <codes> | accept|sigpanic`: the forced-boolean gate on an arbitrary token string
+    (f fn, ( ), > arrow, b bool, u u8, `,` comma, & amp).  Agreement is with the gate the
+    translator read; the property side is the top-level-return-type scan itself. -/
+def handleBoolStr (args obs : List String) : Verdict :=
+  match args with
+  | [codes] =>
+    let toks : List Tok := codes.toList.filterMap fun c =>
+      if c == 'f' then some Tok.fn_ else if c == '(' then some Tok.lp else if c == ')' then some Tok.rp
+      else if c == '>' then some Tok.arrow else if c == 'b' then some (Tok.id boolId) else if c == 'u' then some (Tok.id 1)
+      else if c == ',' then some Tok.comma else if c == '&' then some Tok.amp else none
+    if toks.length != codes.length then bad "codes" else
+    let out := obs.headD "?"
+    let m := if boolGate toks then "accept" else "sigpanic"
+    let want := if boolGateTopLevel toks then "accept" else "sigpanic"
+    { agree := out == m, propOk := out == want,
+      branch := "boolstr" ++ (if want == "accept" then "+accept" else "+refuse"),
+      detail := (if out == m then "" else "model=" ++ m) ++
+                (if out == want then "" else (if want == "accept" then " key=c10.gate-bool-refused" else " key=c10.gate-nonbool-accepted")) }
+  | _ => bad "arity"
+
 end Driver
